@@ -16,7 +16,7 @@ import (
 // unmerged runs every history of length <= depth (no state merging at all).
 func (w *world) unmerged(depth int) {
 	c := w.c
-	n := len(w.ops)
+	n := w.nAlpha
 	total := 1
 	for d := 1; d <= depth; d++ {
 		total *= n
